@@ -221,6 +221,16 @@ pub fn run(prop: &str, tier: &str, seed: u64, outfile: &str) {
             std::process::exit(2);
         }
     }
+    if prop == "C15" {
+        // "custom shape callbacks see a correct map": the module a custom command receives is the symbol's own (labels included)
+        let caps = caps();
+        for k in 0..(if thorough { 40 } else { 8 }) {
+            let v = if k % 2 == 0 { rng.below(40) } else { rng.below(8) };
+            let (inp, o) = small_symbol(&mut rng, &caps, v);
+            let margin = rng.below(6);
+            out.job(move || svgcmd_line(&inp, o, margin));
+        }
+    }
     gen_structured(&mut out, &mut rng, thorough, prop);
     if matches!(prop, "C01" | "C02" | "C07") {
         crate::unitops::gen_padlike_builds(&mut out, &mut rng, thorough);
